@@ -22,90 +22,94 @@ def run(R):
                      "fill_contiguous wraps the colour stream in a take(n) with n equal to the window area (polynomial identities). "
                      "Not decided: for batched draw_iter that start <= end and that a block's colour count equals rows x row length "
                      "(stateful accumulators, C03); set_pixels is documented as unchecked.")
-    for cfg in R.configs:
-        F = R.facts(cfg)
-        orders = {"CASET": C.ctor_order(R, F, D.CASET, 2, "C08", cfg), "RASET": C.ctor_order(R, F, D.RASET, 2, "C08", cfg)}
-        entries = [(C.display_method(F, "set_pixel"), "set_pixel"), (C.display_method(F, "set_pixels"), "set_pixels"),
-                   (C.drawtarget_method(F, "draw_iter"), "draw_iter"), (C.drawtarget_method(F, "fill_contiguous"), "fill_contiguous"),
-                   (C.drawtarget_method(F, "fill_solid"), "fill_solid")]
-        for (q, m) in D.ORIENTATIONS:
-            otag = "%s|%ddeg%s" % (cfg, q * 90, "+mirror" if m else "")
-            g = C.Geo(q, m)
-            for rec, nm in entries:
-                assume = []
-                if nm == "set_pixel":
-                    assume = [g.lw - 1 - sym_int("x", 16, False), g.lh - 1 - sym_int("y", 16, False)]
-                if nm == "set_pixels":
-                    sx, sy, ex_, ey = [sym_int(n, 16, False) for n in ("sx", "sy", "ex", "ey")]
-                    assume = [ex_ - sx, ey - sy, g.lw - 1 - ex_, g.lh - 1 - ey]
-                try:
-                    ex, g, res = D.run_draw(R, F, rec, q, m, assume=assume)
-                except E.Undecided as e:
-                    R.undecided("C08", "%s|%s|undecided" % (otag, nm), str(e))
-                    continue
-                tag = "%s|%s" % (otag, nm)
-                nsucc = 0
-                for o in res.outcomes:
-                    if o.kind == "panic":
-                        continue       # C02 / C01
-                    fin = TR.dfa_run(o.state.trace, res.loops, {0}, D.frame_step)
-                    if C.result_variant(o.value) == 0 or (isinstance(o.value, SymV) and not fin):
-                        pass
-                    is_ok = C.result_variant(o.value) == 0
-                    is_tail = isinstance(o.value, SymV)      # result of the last interface call returned as-is
-                    if is_ok or is_tail:
-                        nsucc += 1
-                        R.ob("C08a-framing", "%s|complete" % tag, 0 in fin,
-                             "a successful %s does not consist of complete groups CASET RASET RAMWR pixels (DFA states %s)" % (nm, sorted(fin)),
-                             sample={"entry": nm, "orientation": [q * 90, m], "dfa_final": sorted(fin)})
-                    else:
-                        R.ob("C08a-framing", "%s|error-prefix|%r" % (tag, o.value), bool(fin),
-                             "an error path of %s is not a prefix of the framing language" % nm)
-                R.floor("%s paths" % tag, nsucc, 1)
-                # (c) / (d)
-                if nm in ("fill_solid", "fill_contiguous", "set_pixel"):
-                    branch = 0
-                    for o in res.returns():
-                        ws = D.windows(o, res.loops, orders)
-                        if len(ws) < 2:
-                            continue
-                        if not any(TR.classify(a_["ev"]).cls in ("PIX", "REP") for a_ in TR.annotate(o.state.trace, res.loops)):
-                            continue
-                        f = o.state.facts
-                        branch += 1
-                        tag = "%s|%s|branch%d" % (otag, nm, branch)
-                        (a0, k0, (c0, c1)), (a1, k1, (p0, p1)) = ws[0], ws[1]
-                        c0, c1, p0, p1 = [f.simplify(v) for v in (c0, c1, p0, p1)]
-                        R.ob("C08c-start-le-end", "%s|columns" % tag, f.entails_ge0(c1 - c0) is not None, "column start %r may exceed end %r" % (c0, c1))
-                        R.ob("C08c-start-le-end", "%s|pages" % tag, f.entails_ge0(p1 - p0) is not None, "page start %r may exceed end %r" % (p0, p1))
-                        R.ob("C08c-end-inside-framebuffer", "%s|columns" % tag, f.entails_ge0(g.col_limit() - 1 - c1) is not None,
-                             "column end %r not provably inside the framebuffer" % (c1,))
-                        R.ob("C08c-end-inside-framebuffer", "%s|pages" % tag, f.entails_ge0(g.row_limit() - 1 - p1) is not None,
-                             "page end %r not provably inside the framebuffer" % (p1,))
-                        area = (c1 - c0 + 1) * (p1 - p0 + 1)
-                        evs = [TR.classify(a_["ev"]) for a_ in TR.annotate(o.state.trace, res.loops)]
-                        if nm == "fill_solid":
-                            reps = [s for s in evs if s.cls == "REP"]
-                            if reps:
-                                cnt = f.simplify(reps[0].ev.args[2].poly())
-                                R.ob("C08d-pixel-count-equals-window", "%s|repeat-count" % tag, cnt == area,
-                                     "fill_solid repeats the colour %r times, the window holds %r pixels" % (cnt, area),
-                                     sample={"entry": nm, "count": repr(cnt), "window_area": repr(area)})
-                        if nm == "fill_contiguous":
-                            pix = [s for s in evs if s.cls == "PIX"]
-                            if pix:
-                                it = pix[0].ev.args[1]
-                                okk = isinstance(it, Agg) and it.name in ("core::iter::take",) and isinstance(it.fields[1], IntV)
-                                n = f.simplify(it.fields[1].poly()) if okk else None
-                                if not okk and isinstance(it, Agg) and it.name == "core::iter::take_while":
-                                    # 16-bit pointer variant: a counting closure capturing the limit
-                                    cl = it.fields[1]
-                                    caps = [x for x in getattr(cl, "fields", []) if isinstance(x, IntV)]
-                                    n = None
-                                    for x in caps:
-                                        if f.simplify(x.poly()) == area:
-                                            n = area
-                                    okk = n is not None
-                                R.ob("C08d-pixel-count-equals-window", "%s|take-limit" % tag, okk and n == area,
-                                     "fill_contiguous limits the colour stream to %r pixels (iterator %s), the window holds %r"
-                                     % (n, getattr(it, "name", it), area), sample={"entry": nm, "take": repr(n), "window_area": repr(area)})
+    R.parallel("C08", "task", [(cfg, q, m) for cfg in R.configs for (q, m) in D.ORIENTATIONS])
+
+
+def task(R, item):
+    cfg, q, m = item
+    F = R.facts(cfg)
+    orders = {"CASET": C.ctor_order(R, F, D.CASET, 2, "C08", cfg), "RASET": C.ctor_order(R, F, D.RASET, 2, "C08", cfg)}
+    entries = [(C.display_method(F, "set_pixel"), "set_pixel"), (C.display_method(F, "set_pixels"), "set_pixels"),
+               (C.drawtarget_method(F, "draw_iter"), "draw_iter"), (C.drawtarget_method(F, "fill_contiguous"), "fill_contiguous"),
+               (C.drawtarget_method(F, "fill_solid"), "fill_solid")]
+    if True:
+        otag = "%s|%ddeg%s" % (cfg, q * 90, "+mirror" if m else "")
+        g = C.Geo(q, m)
+        for rec, nm in entries:
+            assume = []
+            if nm == "set_pixel":
+                assume = [g.lw - 1 - sym_int("x", 16, False), g.lh - 1 - sym_int("y", 16, False)]
+            if nm == "set_pixels":
+                sx, sy, ex_, ey = [sym_int(n, 16, False) for n in ("sx", "sy", "ex", "ey")]
+                assume = [ex_ - sx, ey - sy, g.lw - 1 - ex_, g.lh - 1 - ey]
+            try:
+                ex, g, res = D.run_draw(R, F, rec, q, m, assume=assume)
+            except E.Undecided as e:
+                R.undecided("C08", "%s|%s|undecided" % (otag, nm), str(e))
+                continue
+            tag = "%s|%s" % (otag, nm)
+            nsucc = 0
+            for o in res.outcomes:
+                if o.kind == "panic":
+                    continue       # C02 / C01
+                fin = TR.dfa_run(o.state.trace, res.loops, {0}, D.frame_step)
+                if C.result_variant(o.value) == 0 or (isinstance(o.value, SymV) and not fin):
+                    pass
+                is_ok = C.result_variant(o.value) == 0
+                is_tail = isinstance(o.value, SymV)      # result of the last interface call returned as-is
+                if is_ok or is_tail:
+                    nsucc += 1
+                    R.ob("C08a-framing", "%s|complete" % tag, 0 in fin,
+                         "a successful %s does not consist of complete groups CASET RASET RAMWR pixels (DFA states %s)" % (nm, sorted(fin)),
+                         sample={"entry": nm, "orientation": [q * 90, m], "dfa_final": sorted(fin)})
+                else:
+                    R.ob("C08a-framing", "%s|error-prefix|%r" % (tag, o.value), bool(fin),
+                         "an error path of %s is not a prefix of the framing language" % nm)
+            R.floor("%s paths" % tag, nsucc, 1)
+            # (c) / (d)
+            if nm in ("fill_solid", "fill_contiguous", "set_pixel"):
+                branch = 0
+                for o in res.returns():
+                    ws = D.windows(o, res.loops, orders)
+                    if len(ws) < 2:
+                        continue
+                    if not any(TR.classify(a_["ev"]).cls in ("PIX", "REP") for a_ in TR.annotate(o.state.trace, res.loops)):
+                        continue
+                    f = o.state.facts
+                    branch += 1
+                    tag = "%s|%s|branch%d" % (otag, nm, branch)
+                    (a0, k0, (c0, c1)), (a1, k1, (p0, p1)) = ws[0], ws[1]
+                    c0, c1, p0, p1 = [f.simplify(v) for v in (c0, c1, p0, p1)]
+                    R.ob("C08c-start-le-end", "%s|columns" % tag, f.entails_ge0(c1 - c0) is not None, "column start %r may exceed end %r" % (c0, c1))
+                    R.ob("C08c-start-le-end", "%s|pages" % tag, f.entails_ge0(p1 - p0) is not None, "page start %r may exceed end %r" % (p0, p1))
+                    R.ob("C08c-end-inside-framebuffer", "%s|columns" % tag, f.entails_ge0(g.col_limit() - 1 - c1) is not None,
+                         "column end %r not provably inside the framebuffer" % (c1,))
+                    R.ob("C08c-end-inside-framebuffer", "%s|pages" % tag, f.entails_ge0(g.row_limit() - 1 - p1) is not None,
+                         "page end %r not provably inside the framebuffer" % (p1,))
+                    area = (c1 - c0 + 1) * (p1 - p0 + 1)
+                    evs = [TR.classify(a_["ev"]) for a_ in TR.annotate(o.state.trace, res.loops)]
+                    if nm == "fill_solid":
+                        reps = [s for s in evs if s.cls == "REP"]
+                        if reps:
+                            cnt = f.simplify(reps[0].ev.args[2].poly())
+                            R.ob("C08d-pixel-count-equals-window", "%s|repeat-count" % tag, cnt == area,
+                                 "fill_solid repeats the colour %r times, the window holds %r pixels" % (cnt, area),
+                                 sample={"entry": nm, "count": repr(cnt), "window_area": repr(area)})
+                    if nm == "fill_contiguous":
+                        pix = [s for s in evs if s.cls == "PIX"]
+                        if pix:
+                            it = pix[0].ev.args[1]
+                            okk = isinstance(it, Agg) and it.name in ("core::iter::take",) and isinstance(it.fields[1], IntV)
+                            n = f.simplify(it.fields[1].poly()) if okk else None
+                            if not okk and isinstance(it, Agg) and it.name == "core::iter::take_while":
+                                # 16-bit pointer variant: a counting closure capturing the limit
+                                cl = it.fields[1]
+                                caps = [x for x in getattr(cl, "fields", []) if isinstance(x, IntV)]
+                                n = None
+                                for x in caps:
+                                    if f.simplify(x.poly()) == area:
+                                        n = area
+                                okk = n is not None
+                            R.ob("C08d-pixel-count-equals-window", "%s|take-limit" % tag, okk and n == area,
+                                 "fill_contiguous limits the colour stream to %r pixels (iterator %s), the window holds %r"
+                                 % (n, getattr(it, "name", it), area), sample={"entry": nm, "take": repr(n), "window_area": repr(area)})
